@@ -288,6 +288,17 @@ def run_if(ctx, case):
     assigned = set(then_defs) | set(else_defs)
     I, self, top, state = world(ctx, assigned, set(live))
     bind_outer(I, self, top, outer)
+    # the `if` may sit inside a loop body / branch that re-binds the variables: the innermost binding is the current one
+    nested = len(vs) <= 2 and bool(outer) and ctx.choose(2, "if nested in a scope that re-binds the outer variables") == 1
+    ctx.ghost["if_nested"] = nested
+    if nested:
+        I.call(I.getattr(self, "_enter_scope"), ["enclosing_body", None])
+        bind_outer(I, self, top, outer)
+    current = {}
+    for var in outer:
+        sv = I.call(I.getattr(self, "_lookup"), [var, CM.real_info()])
+        current[var] = sv.fields["value"] if isinstance(sv, SObj) else None
+    ctx.ghost["if_current"] = current
     stmt = SObj(ast.If, "ifstmt")
     test = SObj(ast.Name, "test")
     aliases = {}
@@ -347,8 +358,20 @@ def s_if(ctx, k=2):
     for g, nm in ((then_g, "then"), (else_g, "else")):
         inside = all(o.fields["name"] in g.assigned_names for o in g.outputs)
         ctx.check(f"C02.converter.if.{nm}_outputs_produced_inside_the_subgraph", inside, CL_SCOPE)
+    # a branch that does not assign a live variable returns a copy of the CURRENT (innermost) binding of it
+    log = ctx.ghost["log"]
+    current = ctx.ghost["if_current"]
+    for g, nm, defs in ((then_g, "then", then_defs), (else_g, "else", else_defs)):
+        for v in D:
+            if v in defs or bound[v] is None:
+                continue
+            o = g.outputs[bound[v]]
+            src = [e for e in log.nodes if any(x is o for x in e["out_values"])]
+            ok = len(src) == 1 and src[0]["op"] == "Identity" and len(src[0]["inputs"]) == 1 and src[0]["inputs"][0] is current.get(v)
+            ctx.check(f"C01.converter.if.{nm}_branch_without_assignment_copies_the_current_binding", ok,
+                      "C01: 'the value every variable holds after an if/else ... is the value the same Python would give'")
     # determinism (2-safety): every choice of iteration orders must emit the structure of the first explored one
-    key = ("if", repr(case), ctx.ghost.get("if_alias"))
+    key = ("if", repr(case), ctx.ghost.get("if_alias"), ctx.ghost.get("if_nested"))
     canon = _CANON.setdefault(key, struct1)
     ctx.check("C14.converter.if.translation_independent_of_set_iteration_order", struct1 == canon, CL_DET)
 
